@@ -26,7 +26,8 @@ EXPLANATION = (
     "the elements they are given; (f) the callables of the vocabulary (Variable, Print, Context, UpdateContext, "
     "MakeFilename) are driven by Run._call_run or have a lazy run of their own.  Every other run method of the tree "
     "is only censused.  Does not decide termination of a concrete pipeline with user elements, nor the exact lag "
-    "arithmetic.")
+    "arithmetic."    " Added after the eighth round of seeded changes and the second round of behaviour-preserving changes: deque(it, maxlen=0) is read as the consume idiom; functools.reduce(f, elements, flow) with f wrapping its first argument is read as the lazy left fold."
+)
 RULES = {
     "C02-a": "LAZY/call time: a non-generator run consumes nothing when called and returns a lazy view",
     "C02-b": "LAZY/pull discipline: pulls only at loop heads/next(), one per iteration, yield inside the loop, no growing container, bounded look-ahead",
